@@ -28,7 +28,9 @@ func safetyDrive(w *core.Worker, c *Case, cuts []int) {
 		if cut < c.Start {
 			continue
 		}
-		n, e, pan, stk := safeCall(R, c.Buf[:cut], o)
+		// exact-capacity private copy: re-slicing or indexing past len panics instead of
+		// quietly reading the continuation
+		n, e, pan, stk := safeCall(R, s.exactPrefix(c.Buf[:cut]), o)
 		w.Eval(1)
 		if pan != "" {
 			cutc := cut
